@@ -46,6 +46,37 @@ theorem used_entries {α : Type} (k : Nat) (m : List α) (hkm : k ≤ m.length) 
     rw [htake]
     exact ⟨by omega, (hc.ord2 m).subperm⟩
 
+/-- Selection logic only, for any point type: if `recoverSignature` returns `t` on every list of
+    `k` ids (distinct mod `r`) with the shares `sig id`, then so does `RecoverGroupSignature` on every
+    map of ≥ `k` such entries under every admissible choice. -/
+theorem recoverGroupSignature_of_recoverWith {M : Type} (ops : Ops M) (r k : Nat) (hk0 : 0 < k)
+    (sig : Nat → M) (t : M)
+    (hrec : ∀ ids : List Nat, ids.length = k → IdsDistinct r ids →
+      recoverWith ops r ids (ids.map sig) = .ok (some t))
+    (m : List (Nat × Option M)) (hkm : k ≤ m.length)
+    (hd : IdsDistinct r (m.map Prod.fst))
+    (hhon : ∀ e ∈ m, e.2 = some (sig e.1))
+    (c : Choice (Nat × Option M)) (hc : Admissible c m.length k) :
+    recoverGroupSignature ops r k m c = .ok (some t) := by
+  obtain ⟨hlen, hsp⟩ := used_entries k m hkm c hc
+  generalize hit : (c.ord2 (if k < m.length then pickSorted 0 (c.ord1 m) (sortInts (randomPerm m.length k c.js)) else m)).take k = it at hlen hsp
+  unfold recoverGroupSignature
+  simp only [hit, hlen, Nat.lt_irrefl, if_false]
+  have hnot : ¬ (k = 0 ∧ 0 < m.length) := by omega
+  simp only [hnot, if_false]
+  have hmem : ∀ e ∈ it, e ∈ m := fun e he => hsp.subset he
+  rw [mapM_honest sig it (fun e he => hhon e (hmem e he))]
+  simp only
+  have hids : IdsDistinct r (it.map Prod.fst) := by
+    unfold IdsDistinct at hd ⊢
+    obtain ⟨l, hl1, hl2⟩ := hsp
+    have hs' : ((l.map Prod.fst).map (· % r)).Sublist ((m.map Prod.fst).map (· % r)) := (hl2.map _).map _
+    have hp : ((l.map Prod.fst).map (· % r)).Perm ((it.map Prod.fst).map (· % r)) := (hl1.map _).map _
+    exact (hp.nodup_iff).1 (hd.sublist hs')
+  have := hrec (it.map Prod.fst) (by simpa using hlen) hids
+  rw [List.map_map] at this
+  exact this
+
 theorem recoverGroupSignature_poly [Fact r.Prime] (ops : Ops G) (hops : LawfulOps r ops)
     (f : (ZMod r)[X]) (k : Nat) (hk0 : 0 < k) (hdeg : f.degree < k)
     (s : Nat → Nat) (hs : ∀ x, ((s x : Nat) : ZMod r) = f.eval (x : ZMod r)) (h : G)
@@ -54,35 +85,18 @@ theorem recoverGroupSignature_poly [Fact r.Prime] (ops : Ops G) (hops : LawfulOp
     (hhon : ∀ e ∈ m, e.2 = some (ops.mul h (s e.1)))
     (c : Choice (Nat × Option G)) (hc : Admissible c m.length k) :
     recoverGroupSignature ops r k m c = .ok (some (f.eval 0 • h)) := by
-  obtain ⟨hlen, hsp⟩ := used_entries k m hkm c hc
-  generalize hit : (c.ord2 (if k < m.length then pickSorted 0 (c.ord1 m) (sortInts (randomPerm m.length k c.js)) else m)).take k = it at hlen hsp
-  unfold recoverGroupSignature
-  simp only [hit, hlen, Nat.lt_irrefl, if_false]
-  have hnot : ¬ (k = 0 ∧ 0 < m.length) := by omega
-  simp only [hnot, if_false]
-  have hmem : ∀ e ∈ it, e ∈ m := fun e he => hsp.subset he
-  rw [mapM_honest (fun x => ops.mul h (s x)) it (fun e he => hhon e (hmem e he))]
-  simp only
-  have hids : IdsDistinct r (it.map Prod.fst) := by
-    unfold IdsDistinct at hd ⊢
-    obtain ⟨l, hl1, hl2⟩ := hsp
-    have hs' : ((l.map Prod.fst).map (· % r)).Sublist ((m.map Prod.fst).map (· % r)) := (hl2.map _).map _
-    have hp : ((l.map Prod.fst).map (· % r)).Perm ((it.map Prod.fst).map (· % r)) := (hl1.map _).map _
-    exact (hp.nodup_iff).1 (hd.sublist hs')
-  have hne : it.map Prod.fst ≠ [] := by
-    intro h0
-    have : (it.map Prod.fst).length = 0 := by rw [h0]; rfl
-    rw [List.length_map] at this; omega
-  have := recoverWith_poly ops hops (it.map Prod.fst) hne hids f (by simpa [hlen] using hdeg)
-    ((it.map Prod.fst).map s) (by simp) (by
+  refine recoverGroupSignature_of_recoverWith ops r k hk0 (fun x => ops.mul h (s x)) _ ?_ m hkm hd hhon c hc
+  intro ids hlen hids
+  have hne : ids ≠ [] := by intro h0; subst h0; simp at hlen; omega
+  have := recoverWith_poly ops hops ids hne hids f (by simpa [hlen] using hdeg)
+    (ids.map s) (by simp) (by
       intro t ht
-      have ht' : t < (it.map Prod.fst).length := ht
-      rw [List.getD, List.getElem?_map, List.getElem?_eq_getElem ht']
+      rw [List.getD, List.getElem?_map, List.getElem?_eq_getElem ht]
       simp only [Option.map_some, Option.getD_some]
       rw [hs]
       unfold pt
-      simp [List.getD, List.getElem?_eq_getElem ht']) h
-  rw [List.map_map, List.map_map] at this
+      simp [List.getD, List.getElem?_eq_getElem ht]) h
+  rw [List.map_map] at this
   exact this
 
 end Rangers.Proofs.C13
